@@ -2019,20 +2019,26 @@ func (self *Node) parseRaw(full bool) {
 	raw := self.toString()
 	parser := NewParserObj(raw)
 	var e types.ParsingError
+	var n Node
 	if full {
 		parser.noLazy = true
-		*self, e = parser.Parse()
+		n, e = parser.Parse()
 	} else if lock {
-		var n Node
 		parser.noLazy = true
 		parser.loadOnce = true
 		n, e = parser.Parse()
-		self.assign(n)
 	} else {
-		*self, e = parser.Parse()
+		n, e = parser.Parse()
 	}
 	if e != 0 {
-		*self = *newSyntaxError(parser.syntaxError(e))
+		n = *newSyntaxError(parser.syntaxError(e))
+	}
+	if lock {
+		/* keep the mutex (readers may be waiting on it, and it is unlocked on return)
+		 * and publish the type last */
+		self.assign(n)
+	} else {
+		*self = n
 	}
 }
 
